@@ -3,6 +3,7 @@
 package middleware
 
 import (
+	"fmt"
 	"strconv"
 	"context"
 	"time"
@@ -246,8 +247,15 @@ func HarnessC19DelayOnError() {
 	if !first {
 		msg.Metadata.Set(delay.DelayedForKey, prev.String())
 	}
-	_, err := d.Middleware(func(m *message.Message) ([]*message.Message, error) { return nil, errScripted })(msg)
-	vrt.Assert(err == errScripted, "the error passes through")
+	hErr := errScripted
+	switch vrt.Int("error.kind", 0, 2) {
+	case 1:
+		hErr = context.Canceled // a failure is a failure, whatever the error is
+	case 2:
+		hErr = fmt.Errorf("interrupted: %w", context.Canceled)
+	}
+	_, err := d.Middleware(func(m *message.Message) ([]*message.Message, error) { return nil, hErr })(msg)
+	vrt.Assert(err == hErr, "the error passes through")
 	got, perr := time.ParseDuration(msg.Metadata.Get(delay.DelayedForKey))
 	vrt.Assert(perr == nil, "a delay is stamped on failure")
 	vrt.Observe("got", int64(got))
